@@ -279,6 +279,11 @@ impl Scenario for C17 {
             let want = (i < 3 && m.members[i]) || (i == 8 && m.members[3]);
             out.expect(q == Some(ScVal::Bool(want)), "probe.is_operator", || format!("account {}: {:?} vs {}", i, q, want));
         }
+        // nobody else is ever an operator: the owners, the targets of forwarded calls, the contract itself
+        for (label, a) in [("target", &ctx.probe), ("second target", &ctx.probe2), ("the operators contract", &ctx.ops), ("owner O", &ctx.p[3]), ("owner N", &ctx.p[4]), ("the all-zero account", &ctx.p[6])] {
+            let q = w.query(&ctx.ops, "is_operator", &[a.to_val()]);
+            out.expect(q == Some(ScVal::Bool(false)), "probe.is_operator-bystander", || format!("{}: {:?}, never added", label, q));
+        }
         let q = w.query(&ctx.ops, "owner", &[]);
         out.expect(q == Some(w.sc_addr_val(&ctx.p[m.owner])), "probe.owner", || format!("{:?} vs {}", q, m.owner));
         let q = w.query(&ctx.probe, "count", &[]);
@@ -307,7 +312,7 @@ fn main() {
         let mut o = Opts::new(tier, if tier == "thorough" { 14 } else { 10 });
         o.min_depth = 4;
         o.xcheck = tier == "thorough";
-        o.rule = "all sequences over add/remove operator X, Y, Z and an account-type address by {owner O, other owner N, stranger}, ownership transfers O<->N (and by non-owners, to self, to the all-zero account = renouncing, to the operators contract itself, and take-over attempts afterwards), execute by caller X/Y/Z authorised by {itself, a stranger, nobody, the owner, itself but for another forwarded function with the same arguments, itself but for another target contract, itself but for other forwarded arguments} forwarding to a probe contract: echo of 12 values of different types (incl. false, true, 0, the empty string, void), add(2,3), record(7,tag) (writes + emits, bounded to 2), a target returning an error, a panicking target, a missing function, wrong arity; explored to fixpoint; is_operator for all six accounts, owner() and the probe's delivery count compared after every new state; the probe target reports Z as its own owner / operator / admin / collector, which must give Z nothing; every exported function of the operators contract that the check does not drive by name is called with nobody's authorisation and must change nothing".into();
+        o.rule = "all sequences over add/remove operator X, Y, Z and an account-type address by {owner O, other owner N, stranger}, ownership transfers O<->N (and by non-owners, to self, to the all-zero account = renouncing, to the operators contract itself, and take-over attempts afterwards), execute by caller X/Y/Z authorised by {itself, a stranger, nobody, the owner, itself but for another forwarded function with the same arguments, itself but for another target contract, itself but for other forwarded arguments} forwarding to a probe contract: echo of 12 values of different types (incl. false, true, 0, the empty string, void), add(2,3), record(7,tag) (writes + emits, bounded to 2), a target returning an error, a panicking target, a missing function, wrong arity; explored to fixpoint; is_operator for all six accounts and for six bystanders (both targets, the contract itself, both owners, the all-zero account), owner() and the probe's delivery count compared after every new state; the probe target reports Z as its own owner / operator / admin / collector, which must give Z nothing; every exported function of the operators contract that the check does not drive by name is called with nobody's authorisation and must change nothing".into();
         (C17, o)
     });
 }
